@@ -90,7 +90,7 @@ ASSUMPTIONS = [
 FAULT_KINDS = ["delete-csv", "delete-tex", "delete-pdf", "delete-png", "data-changed", "template-changed",
                "converter-finishes-after-k-polls", "converter-finishes-at-communicate",
                "run-abandoned-by-consumer", "template-line-terminator-only-change"]
-EXPECTED_PROBES = ["csv-deleted-and-data-changed", "tex-deleted-and-template-changed", "pdf-deleted-only",
+EXPECTED_PROBES = ["template-with-non-ascii-characters", "csv-deleted-and-data-changed", "tex-deleted-and-template-changed", "pdf-deleted-only",
                    "png-deleted-only", "unchanged-run-no-work", "converter-finished-between-polls",
                    "completion-order-differs-from-launch-order", "existing_unchanged", "write-overwrite",
                    "second-makefilename-not-overwriting", "second-makefilename-overwriting",
@@ -119,9 +119,17 @@ MKF = ["plain", "dir", "dirfmt", "prefix", "suffix", "presuf", "ctxprefix", "sec
        "name-with-dir", "dir-from-name", "dir-dotdot"]
 
 
+NONASCII = [False]   # set per history: the template holds characters outside ASCII
+
+
+def _title():
+    # byte length and character count of the rendered text differ
+    return " \u00b5-\u00c9v\u00e9nement \u0434" if NONASCII[0] else ""
+
+
 def template_text(version, newline=False):
     # jinja2 drops a single trailing newline by default: two in the template give one in the text
-    return ("%% template v%d\n"
+    return ("%% template" + _title() + " v%d\n"
             "\\begin{plot}\n"
             "\\input{\\VAR{ output.filepath }}\n"
             "%% \\VAR{ plot.name }\n"
@@ -129,7 +137,7 @@ def template_text(version, newline=False):
 
 
 def expected_tex(version, csvpath, name, newline=False):
-    return ("%% template v%d\n"
+    return ("%% template" + _title() + " v%d\n"
             "\\begin{plot}\n"
             "\\input{%s}\n"
             "%% %s\n"
@@ -288,6 +296,7 @@ def gen_scenario(tape):
     # plot names p0, p1, ... or names that end in a letter of "tex" (p0x, p1x, ...)
     NAME_TAIL[0] = tape.choice(["", "", "x", "e", "t"], "name-ending")
     sc.name_tail = NAME_TAIL[0]
+    NONASCII[0] = sc.nonascii = tape.chance(1, 4, "template-with-non-ascii-characters")
     sc.w1 = tape.weighted([(6, "plain"), (1, "existing_unchanged"), (1, "overwrite")], "write1")
     sc.w2 = tape.weighted([(6, "plain"), (1, "existing_unchanged"), (1, "overwrite")], "write2")
     sc.ow_pdf = tape.chance(1, 8, "latex-overwrite")
@@ -437,12 +446,15 @@ class World(object):
 def run(tape):
     res = RunResult()
     NAME_TAIL[0] = ""
+    NONASCII[0] = False
     if tape.weighted([(3, "flat"), (1, "grouped")], "variant") == "grouped":
         from . import c19g
         return c19g.run_grouped(tape, res, World, write_mod, latex_mod, png_mod)
     sc = gen_scenario(tape)
     w = World(sc, res)
     log = res.log
+    if sc.nonascii:
+        res.probe("template-with-non-ascii-characters")
     judged = [sc.clock == "normal" and not sc.fail]
     why = ["clock-" + sc.clock if sc.clock != "normal" else "failing-converter"]
     res.say("%d plots, MakeFilename %s, Write#1 %s, Write#2 %s, LaTeXToPDF(overwrite=%s), "
